@@ -341,9 +341,9 @@ pub fn c04(tier: Tier) -> i32 {
                 case: json!({"kind": "captures", "expression": e.text, "path": ""}),
             });
         }
-        let (spec_ok, u2, u3) = match lang::reference(&e.ast, &Deviations::default()) {
-            lang::Spec::Specified(r) => (true, r.u2, r.u3),
-            _ => (false, false, false),
+        let (spec_ok, u2, u3, ref_dfa) = match lang::reference(&e.ast, &Deviations::default()) {
+            lang::Spec::Specified(r) => (true, r.u2, r.u3, Dfa::new(&r.regex).ok()),
+            _ => (false, false, false, None),
         };
         if !spec_ok {
             bump(c, "language_laws_skipped_unspecified", 1);
@@ -354,6 +354,7 @@ pub fn c04(tier: Tier) -> i32 {
         let mut reported_alarm = false;
         let mut matching = 0u64;
         let mut paths = 0u64;
+        let mut nonconforming = 0u64;
         let complete = live_paths(&dfa, &alphabet, l, 4000, &mut |path, accepted| {
             paths += 1;
             // matched.is_some() <=> is_match (both directions, through the public API)
@@ -378,10 +379,17 @@ pub fn c04(tier: Tier) -> i32 {
             matching += 1;
             // the language laws are only demanded where the documented meaning is specified
             // (U1 empty component, U2 / U3 rootedness)
+            // ... and only for matches that conform to the documented language at all: a match
+            // outside it is C01's alarm, and its captures cannot satisfy language laws
+            let conforming = ref_dfa.as_ref().map_or(false, |d| d.accepts(path));
             let specified_here = spec_ok
                 && !path.contains("//")
                 && !(u2 && path.starts_with('/'))
                 && !(u3 && !path.starts_with('/'));
+            if specified_here && !conforming {
+                nonconforming += 1;
+            }
+            let specified_here = specified_here && conforming;
             let bad = capture_laws(g, &e.ast, &cm, specified_here, path, &mut gap_cache);
             if !bad.is_empty() && !reported_alarm {
                 reported_alarm = true;
@@ -406,6 +414,7 @@ pub fn c04(tier: Tier) -> i32 {
         });
         bump(c, "paths", paths);
         bump(c, "matching_pairs", matching);
+        bump(c, "matches_outside_reference_language_left_to_C01", nonconforming);
         if !complete {
             bump(c, "expressions_capped", 1);
         }
